@@ -6,6 +6,8 @@ from checks import query_common as qc
 def check(run, replay):
     thorough = run.tier == "thorough"
     binary = run.build("queryrun")
+    if not replay:
+        qc.model_check_laws(run, thorough)
     n = 30000 if thorough else 2500
     cases = gen_cases = qc.gen_cases(run, n, 5, "a")
     cases6 = qc.gen_cases(run, n // 3, 7, "b")
